@@ -380,6 +380,13 @@ class _Inliner:
                     r = self.expand(SX.strip(e['r']), h, stack)
                     if r is not None and r[1] is not None:
                         return r[0] + [dict(s, e=dict(e, r=r[1]))]
+            if SX.is_node(e) and e.get('k') == 'opcall' and e.get('op') == '=' and len(e.get('args', [])) == 2 and pure(e['args'][0]):
+                # assignment through an overloaded operator= (`left = parseBinaryOperator(…)` on a unique_ptr)
+                h = self.callee(SX.strip(e['args'][1]), stack)
+                if h is not None:
+                    r = self.expand(SX.strip(e['args'][1]), h, stack)
+                    if r is not None and r[1] is not None:
+                        return r[0] + [dict(s, e=dict(e, args=[e['args'][0], r[1]]))]
             pre, ne = self.nested(s.get('e'), stack)
             return pre + [dict(s, e=ne)] if pre else [s]
         if k == 'return':
